@@ -12,7 +12,7 @@ use std::time::Duration;
 // ---------------------------------------------------------------------------
 // R-doc: doc model -> (comment text, expected documentation)
 
-const ASCII_WORDS: &[&str] = &["hello", "world", "Returns", "the", "value.", "x", "a-b", "(see", "below)", "100%", "it's", "\"quoted\"", "end;", "{k}", "a,b", "#1", "e.g.", "T<U>", "snake_case", "A"];
+const ASCII_WORDS: &[&str] = &["<p>", "</p>", "<br>", "<li>", "{link", "Foo}", "<p>", "&amp;", "hello", "world", "Returns", "the", "value.", "x", "a-b", "(see", "below)", "100%", "it's", "\"quoted\"", "end;", "{k}", "a,b", "#1", "e.g.", "T<U>", "snake_case", "A"];
 const ACCENT_WORDS: &[&str] = &["Größe", "é", "naïve", "señor", "Übung", "ça", "œuvre", "Ärger", "ñ", "façade"];
 const CJK_WORDS: &[&str] = &["漢字", "日本語", "中", "テスト", "한글", "文書"];
 const EMOJI_WORDS: &[&str] = &["😀", "👍", "🚀🚀", "e\u{301}", "🙂ok", "✓"];
